@@ -101,7 +101,6 @@ def _id1(i):
 def tag_records(mesh):
     """sub / bnd records of Tags.tla for the tags the mesh carries (index arrays as the code holds them)."""
     nf = int(mesh.facets.shape[1])
-    nt = int(mesh.t.shape[1])
     facets, f2t = mesh.facets, mesh.f2t
     sub, bnd = [], []
     for name, ix in (mesh._subdomains or {}).items():
